@@ -50,6 +50,55 @@ def runGo (s : St) (args : List String) (interrupt : Option (Bool × Nat)) (maxI
           { s1 with pending := [], pollPeriod := s.pollPeriod, quit := quitAfter, out := [] })
   | _ => none
 
+/-- a message waiting in the channel behind a `go` (`midgo`); a position message carries its board -/
+inductive Pend where
+  | msg (m : Msg)
+  | pos (b : Board)
+
+def Pend.toMsg : Pend → Msg
+  | .msg m => m
+  | .pos _ => .position
+
+def pendOf (t : String) : Option Pend :=
+  match t with
+  | "new" => some (.msg .newGame)
+  | "stop" => some (.msg .stop)
+  | "quit" => some (.msg .quit)
+  | "ponderhit" => some (.msg .ponderHit)
+  | "debugon" => some (.msg (.debug true))
+  | "debugoff" => some (.msg (.debug false))
+  | _ =>
+    if t.startsWith "pos=" then
+      match Uci.parseLine ("position fen " ++ ChessOps.fenArg ((t.drop 4).toString)) with
+      | .ok (.positionFrom fenChars _) =>
+        match FenBoard.fromFenString (String.ofList fenChars) with
+        | .ok b => some (.pos b)
+        | .error _ => none
+      | _ => none
+    else none
+
+/-- `idle` consuming one message that the search left in the channel -/
+def idleStep (s : St) (p : Pend) : St :=
+  if s.quit then s else
+  match p with
+  | .msg .newGame => { s with resetNext := true }
+  | .msg .quit => { s with quit := true }
+  | .pos b => setPosition s b []
+  | _ => s
+
+/-- `midgo`: go with arbitrary messages waiting behind it -/
+def runGoPending (s : St) (args : List String) (pend : List Pend) (n : Nat) (maxIter : Nat) : Option (String × St) :=
+  match Uci.parseLine (" ".intercalate ("go" :: args)) with
+  | .ok (.go g) =>
+    let s0 := { s with out := [], pollPeriod := n, pending := pend.map Pend.toMsg }
+    let s1 := goCmd s0 (goParamsOf g) maxIter
+    let outs := s1.out.reverse.filterMap renderOut
+    -- not consumed during the search (no poll happened): idle consumes them afterwards
+    let s2 := if s1.pending.isEmpty then s1 else pend.foldl idleStep s1
+    some (if outs.isEmpty then "-" else " ".intercalate outs,
+          { s2 with pending := [], pollPeriod := s.pollPeriod, out := [] })
+  | _ => none
+
 /-- iteration bound for the model: explicit depth, else 200 (only interrupted / time-limited searches have no
 depth; the generators size the virtual clock so that they stop long before) -/
 def iterBound (args : List String) : Nat :=
@@ -90,6 +139,13 @@ def handleSession (args : List String) : String :=
         | none => go s ("E" :: acc) rest
       | "quitgo" :: n :: a =>
         match runGo s a (some (true, (optNum n).getD 100000)) (iterBound a) with
+        | some (o, s') => go s' (o :: acc) rest
+        | none => go s ("E" :: acc) rest
+      | "midgo" :: n :: ms :: a =>
+        let toks := (ms.splitOn ",").filter fun t => t != "" && t != "-"
+        let pend := toks.filterMap pendOf
+        if pend.length != toks.length then go s ("E" :: acc) rest else
+        match runGoPending s a pend ((optNum n).getD 100000) (iterBound a) with
         | some (o, s') => go s' (o :: acc) rest
         | none => go s ("E" :: acc) rest
       | ["clock", n] => go { s with nsPerNode := optNum n } ("." :: acc) rest
